@@ -12,18 +12,25 @@ pub struct ReopenProbe;
 
 pub fn reopen_compare(w: &World, r: usize) -> Option<Value> {
     let live_v = w.view(r);
-    let live_g = block_graph(&w.reps[r].m);
+    // (the commit graph compared is the graph of applied blocks)
+    let applied_only = |g: Value| -> Value {
+        Value::Object(g.as_object().cloned().unwrap_or_default().into_iter().filter(|(_, d)| d.get("status").and_then(|s| s.as_str()) == Some("applied")).collect())
+    };
+    let live_g = applied_only(block_graph(&w.reps[r].m));
     // storage may hold foreign items the committing replica has melded but not yet refreshed
     // (refresh refuses to run while something is staged): those are outside the statement, so
-    // the reopened replica is given the blocks the committing replica knows, plus every pack
-    let known: std::collections::BTreeSet<String> = w.reps[r].m.verif_delta_status().keys().cloned().collect();
+    // the reopened replica is given the blocks the committing replica has APPLIED, plus every pack. (Blocks it
+    // knows but holds back are left out as well: the commit's pack may happen to complete such a foreign block -
+    // same staged objects, same pack - which the committer only notices at its next refresh; and after time
+    // travel the blocks of the abandoned branch are known but not applied.)
+    let known: std::collections::BTreeSet<String> = w.reps[r].m.verif_delta_status().into_iter().filter(|(_, s)| *s == "applied").map(|(k, _)| k).collect();
     let store: RawStore = w.reps[r].store.snapshot().into_iter()
         .filter(|(k, _)| match k.strip_suffix(".delta") { Some(id) => known.contains(id), None => true })
         .collect();
     match fresh_on(&store, "C03 reopen") {
         Ok((m, _)) => {
             let v = view(&m);
-            let g = block_graph(&m);
+            let g = applied_only(block_graph(&m));
             if v != live_v || g != live_g {
                 Some(json!({"differs_view": diff_keys(&v, &live_v), "graph_equal": g == live_g, "live_view": live_v, "reopened_view": v, "live_graph": live_g, "reopened_graph": g}))
             } else {
@@ -48,11 +55,8 @@ impl Probe for ReopenProbe {
                 // after time travel the committer shows only the history below its new head, while a plain
                 // reopen also shows the abandoned branch: that difference is legitimate, and the commit
                 // is then checked through the head-addressed open below
-                let travelled = hist.iter().any(|o| matches!(o, Op::Travel(q, _) if q == r));
-                if !travelled {
-                    cx.violation("C03", "C03:reopen-differs-after-commit", sc, &h, d);
-                    return;
-                }
+                cx.violation("C03", "C03:reopen-differs-after-commit", sc, &h, d);
+                return;
             }
             // the commit is durable under its own identifier: opening the storage "until" the returned
             // head must succeed and show exactly what the committer shows
@@ -231,6 +235,7 @@ pub fn scenarios(thorough: bool) -> Vec<Scenario> {
     v.append(&mut rev);
     // depth 2 in both tiers: every pair of operations from every prepared state
     v.extend(cross_scenarios_depth(2));
+    v.extend(combo_scenarios(thorough));
     v
 }
 
